@@ -808,6 +808,7 @@ class S3Transfer:
             self._download_file(
                 bucket, key, temp_filename, object_size, extra_args, callback
             )
+            self._osutil.rename_file(temp_filename, filename)
         except Exception:
             logger.debug(
                 "Exception caught in download_file, removing partial "
@@ -817,8 +818,6 @@ class S3Transfer:
             )
             self._osutil.remove_file(temp_filename)
             raise
-        else:
-            self._osutil.rename_file(temp_filename, filename)
 
     def _download_file(
         self, bucket, key, filename, object_size, extra_args, callback
